@@ -108,10 +108,15 @@ PROPS = {
         level='model_checking', design_ref='5/C05', oracle='C05',
         technique='explicit-state exploration of deferring configurations (state property and Defer action) + deferral ledger + reference-model conformance',
         quick=[S('defer', ops=['start', 'pe:1', 'pe:2', 'pe:3', 'pe:4', 'pe:5', 'eq:3', 'xq'], qbound=3),
-               S('block', ops=['start', 'pe:1', 'pe:2', 'pe:3', 'pe:4', 'pe:5', 'pe:6'], qbound=2)],
+               S('block', ops=['start', 'pe:1', 'pe:2', 'pe:3', 'pe:4', 'pe:5', 'pe:6'], qbound=2),
+               S('defer2', qbound=3),
+               S('deferhN', qbound=2), S('deferhA', qbound=2), S('deferhS', qbound=2)],
         thorough=[S('defer', ops=['start', 'stop', 'pe:1', 'pe:2', 'pe:3', 'pe:4', 'pe:5', 'eq:3', 'eq:1', 'xq', 'xs'], qbound=4),
                   S('defer', ops=['start', 'pe:1', 'pe:2', 'pe:3', 'pe:4', 'pe:5'], qbound=3, submits=1),
-                  S('block', ops=['start', 'pe:1', 'pe:2', 'pe:3', 'pe:4', 'pe:5', 'pe:6', 'eq:4', 'xq'], qbound=3)],
+                  S('block', ops=['start', 'pe:1', 'pe:2', 'pe:3', 'pe:4', 'pe:5', 'pe:6', 'eq:4', 'xq'], qbound=3),
+                  S('defer2', ops=pe_all('defer2') + ['eq:1', 'xq'], qbound=4),
+                  S('deferhN', ops=pe_all('deferhN') + ['eq:1', 'xq'], qbound=3), S('deferhA', ops=pe_all('deferhA') + ['eq:1', 'xq'], qbound=3),
+                  S('deferhS', ops=pe_all('deferhS') + ['eq:1', 'xq'], qbound=3)],
         rule='all histories over two deferred event types, state-changing events, a handled no-op event and enqueue_event with at most 3 deferred '
              'events pending, Defer-row guards as choice points, to closure; non-trivial when an event was deferred or re-offered',
     ),
@@ -121,8 +126,12 @@ PROPS = {
                   'continuations to closure, reference-model conformance + two-build (zero/pattern auto-init) differential for indeterminate values',
         quick=[S('flat', faults=1, fault_ops=1, twobuild=True),
                S('hier2', faults=1, fault_ops=1, twobuild=True),
-               S('compl', ops=['start', 'pe:1', 'pe:2', 'pe:3', 'pe:4', 'eq:4', 'xq'], faults=1, fault_ops=1, qbound=1, twobuild=True)],
+               S('compl', ops=['start', 'pe:1', 'pe:2', 'pe:3', 'pe:4', 'eq:4', 'xq'], faults=1, fault_ops=1, qbound=1, twobuild=True),
+               S('sw_after_action', cfgs=['b', 'bc', 'b11', 'm'], faults=1, fault_ops=1),
+               S('sw_after_exit', cfgs=['b', 'b11', 'mf'], faults=1, fault_ops=1),
+               S('sw_before', cfgs=['bq', 'b11', 'mc'], faults=1, fault_ops=1)],
         thorough=[S('flat', faults=2, fault_ops=2, twobuild=True),
+                  S('sw_after_action', faults=1, fault_ops=1), S('sw_after_exit', faults=1, fault_ops=1), S('sw_before', faults=1, fault_ops=1),
                   S('hier2', faults=1, fault_ops=2, twobuild=True),
                   S('hier2', ops=['start', 'pe:1', 'pe:2', 'pe:3', 'eq:1', 'xq'], faults=1, fault_ops=1, submits=1, guards=1, qbound=1),
                   S('compl', ops=['start', 'pe:1', 'pe:2', 'pe:3', 'pe:4', 'eq:4', 'eq:1', 'xq'], faults=1, fault_ops=2, qbound=2, twobuild=True),
